@@ -258,3 +258,117 @@ Example C16_ex_history :
       /\ option_map (map (fun kv => (fst kv, this (snd kv)))) (so_quantiles o1 (Q2Qc (1 # 2))) = Some [("b"%string, 4); ("a"%string, 2)]%Q
   end.
 Proof. vm_compute. repeat split; try reflexivity. repeat (apply Forall_cons; [simpl; auto|]). apply Forall_nil. Qed.
+
+(** Link with C13.  [Sample.sample_quantiles] calls [elfi.methods.utils.weighted_sample_quantile];
+    the model of that function used above ([Results.quantile], over [Qc]) and the C13 model of the
+    same function ([Quantile.wsq], over [Q], Num/Quantile.v) return the same result on the same
+    numbers ([this : Qc -> Q]), [None] in the same cases: always without weights; with weights when
+    they have the length of the sample and do not sum to zero (or alpha = 0).  Outside this domain
+    the two models differ ([C16_quantile_C13_differs]).  Proofs: Proofs/C16_C13_Link.v. *)
+From Elfi Require Num.Quantile Proofs.C13_Quantile Proofs.C16_C13_Link.
+
+Theorem C16_quantile_is_C13_quantile :
+  forall (x : list Qc) (alpha : Qc) (w : option (list Qc)),
+    match w with
+    | Some w => length w = length x /\ (sumq w <> 0 \/ alpha = 0)
+    | None => True
+    end ->
+    option_map this (quantile x alpha w)
+    = Quantile.wsq (map this x) (this alpha) (option_map (map this) w).
+Proof. exact C16_C13_Link.quantile_is_wsq. Qed.
+Print Assumptions C16_quantile_is_C13_quantile.
+
+(** ... and on any rationals equal to the weights (not only their canonical forms) *)
+Theorem C16_quantile_is_C13_quantile_gen :
+  forall (x : list Qc) (alpha : Qc) (w : list Qc) (wq : list Q),
+    Forall2 (fun a b => (this a == b)%Q) w wq -> length w = length x -> (sumq w <> 0 \/ alpha = 0) ->
+    option_map this (quantile x alpha (Some w)) = Quantile.wsq (map this x) (this alpha) (Some wq).
+Proof. exact C16_C13_Link.quantile_wsq_gen. Qed.
+Print Assumptions C16_quantile_is_C13_quantile_gen.
+
+(** wrong length and alpha <> 0: both fail *)
+Theorem C16_quantile_C13_mismatch :
+  forall x alpha w, length w <> length x -> alpha <> 0 ->
+    quantile x alpha (Some w) = None
+    /\ Quantile.wsq (map this x) (this alpha) (Some (map this w)) = None.
+Proof. exact C16_C13_Link.quantile_wsq_mismatch. Qed.
+Print Assumptions C16_quantile_C13_mismatch.
+
+(** the inputs on which the two models differ: zero-sum weights on two or more samples (C13, like
+    numpy, selects no row: every normalised weight is nan; [Qc] has [w / 0 = 0] and the largest value
+    is returned), and weights of the wrong length with alpha = 0 (C13, like the Python code, never
+    looks at the weights then; this model checks the length first) *)
+Example C16_quantile_C13_differs :
+  (option_map this (quantile [q 1; q 2] (Q2Qc (1 # 2)) (Some [q 0; q 0])) = Some 2%Q
+   /\ Quantile.wsq [1; 2]%Q (1 # 2)%Q (Some [0; 0]%Q) = None)
+  /\ (option_map this (quantile [q 2; q 1] (q 0) (Some [q 1])) = None
+      /\ Quantile.wsq [2; 1]%Q 0%Q (Some [1]%Q) = Some 1%Q).
+Proof. vm_compute. repeat split; reflexivity. Qed.
+
+(** C13_quantile_spec, for this model: with non-negative weights of positive sum and alpha in
+    [0, 1] the quantile is defined, is an element of the column, the normalised weight of the values
+    <= q is at least alpha and that of the values < q at most alpha (less than alpha if alpha > 0;
+    q is the minimum if alpha = 0) *)
+Theorem C16_quantile_inequalities :
+  forall (x w : list Qc), length w = length x -> Forall (fun v => 0 <= v) w -> 0 < sumq w ->
+    forall alpha, 0 <= alpha -> alpha <= 1 ->
+    exists v, quantile x alpha (Some w) = Some v /\ In v x
+              /\ alpha <= wle v x w / sumq w
+              /\ wlt v x w / sumq w <= alpha
+              /\ (0 < alpha -> wlt v x w / sumq w < alpha)
+              /\ (alpha = 0 -> forall y, In y x -> v <= y).
+Proof. exact C16_C13_Link.quantile_inequalities. Qed.
+Print Assumptions C16_quantile_inequalities.
+
+(** C13_quantile_scale_invariant, for this model *)
+Theorem C16_quantile_scale_invariant :
+  forall (x w : list Qc), length w = length x -> Forall (fun v => 0 <= v) w -> 0 < sumq w ->
+    forall c alpha, 0 < c -> 0 <= alpha -> alpha <= 1 ->
+    quantile x alpha (Some (map (Qcmult c) w)) = quantile x alpha (Some w).
+Proof. exact C16_C13_Link.quantile_scale_invariant_c. Qed.
+Print Assumptions C16_quantile_scale_invariant.
+
+(** the reported quantiles of an object ([so_quantiles o alpha = quantiles_of (so_samples o) (so_weights o) alpha])
+    are, column by column, weighted sample quantiles in the C13 sense, and do not depend on the
+    scale of the weights *)
+Theorem C16_quantiles_inequalities :
+  forall (s : dict) (w : list Qc) (alpha : Qc) (qs : list (string * Qc)),
+    Forall (fun v => 0 <= v) w -> 0 < sumq w -> 0 <= alpha -> alpha <= 1 ->
+    quantiles_of s (Some w) alpha = Some qs ->
+    length qs = length s
+    /\ forall j k v, nth_error qs j = Some (k, v) ->
+         exists col, nth_error s j = Some (k, col) /\ length w = length col /\ In v col
+                     /\ alpha <= wle v col w / sumq w
+                     /\ wlt v col w / sumq w <= alpha
+                     /\ (0 < alpha -> wlt v col w / sumq w < alpha)
+                     /\ (alpha = 0 -> forall y, In y col -> v <= y).
+Proof. exact C16_C13_Link.quantiles_of_inequalities. Qed.
+Print Assumptions C16_quantiles_inequalities.
+
+Theorem C16_quantiles_scale_invariant :
+  forall (s : dict) (w : list Qc) (c alpha : Qc),
+    Forall (fun kv => length (snd kv) = length w) s ->
+    Forall (fun v => 0 <= v) w -> 0 < sumq w -> 0 < c -> 0 <= alpha -> alpha <= 1 ->
+    quantiles_of s (Some (map (Qcmult c) w)) alpha = quantiles_of s (Some w) alpha.
+Proof. exact C16_C13_Link.quantiles_of_scale_invariant. Qed.
+Print Assumptions C16_quantiles_scale_invariant.
+
+(** non-vacuity: one weighted column, both models, the inequalities at the value returned *)
+Example C16_ex_quantile_link :
+  let x := [q 3; q 1; q 2] in let w := [q 1; q 2; q 1] in let a := Q2Qc (3 # 5) in
+  option_map this (quantile x a (Some w)) = Some 2%Q
+  /\ Quantile.wsq (map this x) (this a) (Some (map this w)) = Some 2%Q
+  /\ this (wle (q 2) x w / sumq w) = (3 # 4)%Q /\ this (wlt (q 2) x w / sumq w) = (1 # 2)%Q
+  /\ quantile x a (Some (map (Qcmult (q 7)) w)) = quantile x a (Some w).
+Proof. vm_compute. repeat split; reflexivity. Qed.
+
+(** the weighted mean of this model is the weighted mean inside the C13 variance
+    ([xbar = average(x, weights=w)] of [Quantile.wvar_core]):  sum x_i w_i / sum w_i  on the same numbers *)
+Theorem C16_mean_is_C13_mean :
+  forall (x w : list Qc) (m : Qc),
+    average (Some w) x = Some m ->
+    let xw := combine (map this x) (map this w) in
+    length w = length x /\ ~ (Quantile.wtot xw == 0)%Q
+    /\ (this m == Quantile.qsum (map (fun p => fst p * snd p) xw) / Quantile.wtot xw)%Q.
+Proof. exact C16_C13_Link.average_is_wvar_xbar. Qed.
+Print Assumptions C16_mean_is_C13_mean.
